@@ -255,17 +255,207 @@ pub fn fp() -> bool {
     bad
 }
 
+
+/// Replica::insert_entry (direct path): validate, then put decides admission, then one event.
+/// Scenarios: (1) equal timestamps, the greater content hash arrives second and must win; an older and an
+/// equal entry are refused as NewerEntryExists; (2) a read-only replica refuses local writes but accepts
+/// remote entries AND remote deletion markers; (3) per applied entry exactly one event with the right
+/// variant and fields, none for refused / invalid entries; should_download follows the stored policy.
+pub fn insglue() -> bool {
+    use crate::store::{DownloadPolicy, FilterKind};
+    use crate::sync::{Capability, Event, InsertError};
+    let mut bad = false;
+    let now = std::time::SystemTime::now().duration_since(std::time::UNIX_EPOCH).unwrap().as_micros() as u64;
+    let ns = NamespaceSecret::from_bytes(&[33u8; 32]);
+    let author = Author::from_bytes(&[34u8; 32]);
+    let nsid = ns.id();
+    let mk = |key: &[u8], rec: Record| SignedEntry::from_entry(Entry::new(RecordIdentifier::new(nsid, author.id(), key), rec), &ns, &author);
+    // ---- (1) + (3) on a writable replica with a policy
+    {
+        let mut store = Store::memory();
+        store.import_namespace(ns.clone().into()).unwrap();
+        store.set_download_policy(&nsid, DownloadPolicy::NothingExcept(vec![FilterKind::Prefix("dl".into())])).unwrap();
+        let mut replica = store.open_replica(&nsid).unwrap();
+        let (tx, rx) = async_channel::bounded(32);
+        replica.info.subscribe(tx);
+        let (h1, h2) = (Hash::new(b"one"), Hash::new(b"two"));
+        let (lo, hi) = if h1.as_bytes() < h2.as_bytes() { (h1, h2) } else { (h2, h1) };
+        let e_lo = mk(b"dl/k", Record::new(lo, 3, now));
+        let e_hi = mk(b"dl/k", Record::new(hi, 3, now));
+        let e_old = mk(b"dl/k", Record::new(hi, 3, now - 10));
+        let e_other = mk(b"zz", Record::new(hi, 3, now));
+        let other_ns = NamespaceSecret::from_bytes(&[35u8; 32]);
+        let e_foreign = SignedEntry::from_entry(Entry::new(RecordIdentifier::new(other_ns.id(), author.id(), b"f"), Record::new(hi, 3, now)), &other_ns, &author);
+        let r1 = block_on(replica.insert_remote_entry(e_lo.clone(), [7u8; 32], ContentStatus::Complete));
+        let r2 = block_on(replica.insert_remote_entry(e_hi.clone(), [8u8; 32], ContentStatus::Missing));
+        let r3 = block_on(replica.insert_remote_entry(e_hi.clone(), [8u8; 32], ContentStatus::Missing));
+        let r4 = block_on(replica.insert_remote_entry(e_old.clone(), [8u8; 32], ContentStatus::Missing));
+        let r5 = block_on(replica.insert_remote_entry(e_foreign.clone(), [8u8; 32], ContentStatus::Missing));
+        let r6 = block_on(replica.insert_remote_entry(e_other.clone(), [9u8; 32], ContentStatus::Incomplete));
+        let r7 = block_on(replica.insert(b"local", &author, hi, 3));
+        if r1.is_err() || r2.is_err() || r6.is_err() || r7.is_err() {
+            eprintln!("insglue: an acceptable entry was refused: {:?} {:?} {:?} {:?}", r1.is_ok(), r2.is_ok(), r6.is_ok(), r7.is_ok());
+            bad = true;
+        }
+        if !matches!(r3, Err(InsertError::NewerEntryExists)) || !matches!(r4, Err(InsertError::NewerEntryExists)) {
+            eprintln!("insglue: an equal / older entry was not refused as NewerEntryExists");
+            bad = true;
+        }
+        if r5.is_ok() {
+            eprintln!("insglue: an entry signed for another document was accepted");
+            bad = true;
+        }
+        let mut evs = vec![];
+        while let Ok(ev) = rx.try_recv() {
+            evs.push(ev);
+        }
+        let want: [(&SignedEntry, [u8; 32], ContentStatus, bool); 3] = [(&e_lo, [7u8; 32], ContentStatus::Complete, true), (&e_hi, [8u8; 32], ContentStatus::Missing, true), (&e_other, [9u8; 32], ContentStatus::Incomplete, false)];
+        if evs.len() != 4 {
+            eprintln!("insglue: expected 4 events (3 remote, 1 local), got {}", evs.len());
+            bad = true;
+        }
+        for (i, w) in want.iter().enumerate() {
+            match evs.get(i) {
+                Some(Event::RemoteInsert { namespace, entry, from, should_download, remote_content_status }) => {
+                    if *namespace != nsid || entry != w.0 || *from != w.1 || *remote_content_status != w.2 || *should_download != w.3 {
+                        eprintln!("insglue: remote event {i} has wrong fields");
+                        bad = true;
+                    }
+                }
+                _ => {
+                    eprintln!("insglue: event {i} is not a RemoteInsert");
+                    bad = true;
+                }
+            }
+        }
+        match evs.get(3) {
+            Some(Event::LocalInsert { namespace, entry }) if *namespace == nsid && entry.key() == b"local" => {}
+            _ => {
+                eprintln!("insglue: the local insert was not announced as LocalInsert");
+                bad = true;
+            }
+        }
+        drop(replica);
+        let held = store.get_exact(nsid, author.id(), b"dl/k", true).unwrap();
+        if held.map(|e| e.content_hash()) != Some(hi) {
+            eprintln!("insglue: with equal timestamps the greater content hash must be the one held");
+            bad = true;
+        }
+    }
+    // ---- (2) read-only replica
+    {
+        let mut store = Store::memory();
+        store.import_namespace(Capability::Read(nsid)).unwrap();
+        let mut replica = store.open_replica(&nsid).unwrap();
+        let local = block_on(replica.insert(b"k", &author, Hash::new(b"x"), 1));
+        let local_del = block_on(replica.delete_prefix(b"k", &author));
+        let e = mk(b"docs/a", Record::new(Hash::new(b"x"), 1, now - 5));
+        let tomb = mk(b"docs/", Record::empty(now));
+        let r1 = block_on(replica.insert_remote_entry(e, [7u8; 32], ContentStatus::Complete));
+        let r2 = block_on(replica.insert_remote_entry(tomb, [7u8; 32], ContentStatus::Complete));
+        if local.is_ok() || local_del.is_ok() {
+            eprintln!("insglue: a read-only replica authored an entry or a deletion");
+            bad = true;
+        }
+        if r1.is_err() || r2.is_err() {
+            eprintln!("insglue: a read-only replica refused a validly signed remote entry / deletion marker: {:?} {:?}", r1.is_ok(), r2.is_ok());
+            bad = true;
+        }
+    }
+    bad
+}
+
+
+/// C08: get_range / get_first / get_fingerprint of the redb-backed store against the ordered-map
+/// definitions, in a store that also holds a document with a smaller and one with a greater id, two
+/// authors, the empty key and 0xFF keys; every pair (x, y) of stored ids (and the default id) is tried.
+pub fn c08range() -> bool {
+    use crate::ranger::{Range, RangeEntry, Store as _};
+    let now = std::time::SystemTime::now().duration_since(std::time::UNIX_EPOCH).unwrap().as_micros() as u64;
+    let mut store = Store::memory();
+    // three documents; pick the one whose id is in the middle
+    let mut docs: Vec<NamespaceSecret> = (40u8..43).map(|b| NamespaceSecret::from_bytes(&[b; 32])).collect();
+    docs.sort_by_key(|d| *d.id().as_bytes());
+    let a1 = Author::from_bytes(&[44u8; 32]);
+    let a2 = Author::from_bytes(&[45u8; 32]);
+    let keys: [&[u8]; 5] = [b"", b"a", b"a\xff", b"b", b"\xff\xff"];
+    for d in docs.iter() {
+        let mut r = store.new_replica(d.clone()).unwrap();
+        for (i, k) in keys.iter().enumerate() {
+            for au in [&a1, &a2] {
+                if i % 2 == 0 || au.id() == a1.id() {
+                    let e = SignedEntry::from_entry(Entry::new(RecordIdentifier::new(d.id(), au.id(), k), Record::new(Hash::new([b"v".as_slice(), k].concat()), 1 + k.len() as u64, now + i as u64)), d, au);
+                    block_on(r.insert_remote_entry(e, [1u8; 32], ContentStatus::Complete)).unwrap();
+                }
+            }
+        }
+    }
+    let mid = docs[1].id();
+    let all: Vec<SignedEntry> = store.get_many(mid, crate::store::Query::all().include_empty()).unwrap().collect::<Result<Vec<_>, _>>().unwrap();
+    let mut ids: Vec<RecordIdentifier> = all.iter().map(|e| e.id().clone()).collect();
+    ids.sort();
+    let mut bad = false;
+    let mut replica = store.open_replica(&mid).unwrap();
+    let first = replica.store.get_first().unwrap();
+    if first != ids[0] {
+        eprintln!("c08range: get_first is not the smallest id of the document");
+        bad = true;
+    }
+    let mut points = ids.clone();
+    points.push(RecordIdentifier::default());
+    let mut n = 0;
+    for x in points.iter() {
+        for y in points.iter() {
+            if (x == &RecordIdentifier::default()) != (y == &RecordIdentifier::default()) {
+                continue; // the default id only occurs as the (x, x) range of an empty replica
+            }
+            let got: Vec<RecordIdentifier> = replica.store.get_range(Range::new(x.clone(), y.clone())).unwrap().map(|e| e.unwrap().id().clone()).collect();
+            let want: Vec<RecordIdentifier> = if x == y {
+                ids.clone()
+            } else if x < y {
+                ids.iter().filter(|t| *t >= x && *t < y).cloned().collect()
+            } else {
+                ids.iter().filter(|t| *t < y).chain(ids.iter().filter(|t| *t >= x)).cloned().collect()
+            };
+            n += 1;
+            if got != want {
+                if !bad {
+                    eprintln!("c08range: get_range(x, y) differs from the ordered-map definition: got {} ids, want {} (x<y: {}, x==y: {})", got.len(), want.len(), x < y, x == y);
+                }
+                bad = true;
+            }
+            let fp = replica.store.get_fingerprint(&Range::new(x.clone(), y.clone())).unwrap();
+            let mut wfp = crate::ranger::Fingerprint::empty();
+            for e in all.iter().filter(|e| want.contains(e.id())) {
+                wfp ^= e.as_fingerprint();
+            }
+            if fp != wfp {
+                if !bad {
+                    eprintln!("c08range: get_fingerprint differs from the XOR over the range's entries");
+                }
+                bad = true;
+            }
+        }
+    }
+    eprintln!("c08range: {n} ranges over {} ids compared; mismatch: {bad}", ids.len());
+    bad
+}
+
 pub fn run(id: &str) -> Option<bool> {
     Some(match id {
         "d3" => d3(),
         "d6" => d6(),
         "c12" => c12(),
         "c12pm" => c12pm(),
+        "insglue" => insglue(),
+        "c08range" => c08range(),
         "c01silence" => c01silence(),
         "fp" => fp(),
         "c14" => crate::actor::verif_incrate::witness_c14(),
+        "c11live" => crate::engine::verif_live::witness_c11live(),
         "c18" => crate::store::fs::verif_incrate::witness_c18::run(),
         "c06" => crate::store::fs::verif_incrate::witness_c06::run(),
+        "c15store" => crate::store::fs::verif_incrate::witness_c15::run(),
         _ => return None,
     })
 }
